@@ -160,13 +160,15 @@ def run(prop, tier):
     for v in agg["violations"]:
         sigkey = sha(v.get("signature", {}))
         seen_sig[sigkey] += 1
-        if seen_sig[sigkey] > 3:
+        if seen_sig[sigkey] > 2 or len(vio_lines) >= 25:
             continue
         rdir.mkdir(parents=True, exist_ok=True)
         h = sha([v.get("signature"), v.get("case")])
         path = rdir / f"{h}.json"
         path.write_text(json.dumps(jsonable(dict(property=prop, seed=seed, tier=tier, case=v.get("case"), case_id=v.get("case_id"), signature=v.get("signature"), triggers=v.get("triggers"), detail=v.get("detail"))), indent=1))
-        vio_lines.append(f"VIOLATION property={prop} replay={path}")
+        line = f"VIOLATION property={prop} replay={path}"
+        if line not in vio_lines:
+            vio_lines.append(line)
 
     wall = time.time() - t0
     cov = dict(
